@@ -38,6 +38,7 @@ func features() sqlgen.Features {
 	f.Partitions = hx.Allowed("c03.partitions")
 	f.QuotedOddNames, f.QuotedDotName, f.QuotedDigitsName = true, true, true
 	f.Corners = true
+	f.ReturningAlias = true
 	return f
 }
 
